@@ -207,8 +207,19 @@ def isingPairs {α : Type} [DecidableEq α] (pairs : List (α × α)) : List (Te
   singleSiteTerms (dedup (pairs.flatMap fun pr => [pr.1, pr.2])) (hamFactor .extMagn) .B ++
   nnTerms pairs (hamFactor .coupling) .A
 
-/-- `_abstract_2D_ising((prefix, rows, cols), …)` -/
-def isingGrid (rows cols : Nat) : List (Term Cell) := isingPairs (nnPairs rows cols)
+/-- `_abstract_ising_model` with a list of neighbour pairs and the explicit site list (argument `sites`,
+    added by the repair of F-C19a): the field acts on exactly the listed sites. -/
+def isingPairsSites {α : Type} (sites : List α) (pairs : List (α × α)) : List (Term α) :=
+  singleSiteTerms sites (hamFactor .extMagn) .B ++ nnTerms pairs (hamFactor .coupling) .A
+
+/-- `[identifier for row in grid for identifier in row]`: all cells, row by row -/
+def gridCells (rows cols : Nat) : List Cell :=
+  (List.range rows).flatMap fun i => (List.range cols).map fun j => (i, j)
+
+/-- `_abstract_2D_ising((prefix, rows, cols), …)` (after the repair of F-C19a: the sites are the cells of
+    the grid, not the sites that happen to occur in a neighbour pair) -/
+def isingGrid (rows cols : Nat) : List (Term Cell) :=
+  isingPairsSites (gridCells rows cols) (nnPairs rows cols)
 
 /-! ## 4. `TTNO.from_tensor` -/
 
